@@ -1,5 +1,6 @@
 import Pcore.Proofs.DispatchRun
 import Pcore.Proofs.DispatchCtors
+import Pcore.Proofs.DispatchStruct
 /-!
 # C16 — Dispatch and construction are type-safe
 
@@ -38,10 +39,17 @@ Full statement / proved / missing
                          `Init[T]`), for every constructor function, hence never a value outside the type; `C16_new_outside`:
                          a constructor result outside the type becomes `reported TYPE_MISMATCH`.
 * `Alpha.C16_newm`, `Alpha.C16_ctor_no_fault` — for the three constructors modelled end to end on the driver's alphabet
-                         (Integer, Boolean, Array: dispatch table built by the same builder, body, assertion; also through
+                         (Integer, Boolean, Array/Tuple, Hash/Struct without the tree-array dispatch: dispatch table built by the same builder,
+                         body, assertion; also through
                          `Init[T]`): the value that comes out is in the receiver type, and no type assertion / index of a body
                          can fail because a body only runs with arguments its declaration accepts (compared value by value
                          with the real constructors by the op `newm`).
+* `Alpha.C16_new_struct` — `Struct[{…}].new` (also through `Init`), for every argument list and every dispatch of the
+                         modelled Hash constructor: the result has only declared keys and every member is present with a
+                         value of its type or optional and absent — the final assertion is on the result VALUE (a hash with
+                         an empty / non-string / undeclared key is reported although its inferred `Hash[K,V,n,n]` type is
+                         one the Struct is assignable from).  Rests on `inst_struct` (Proofs/DispatchStruct.lean): the count
+                         `matched == Len()` of `StructType.IsInstance` read declaratively.
 * missing / trusted    — the other constructors' bodies (String formatting, Hash from tree arrays, Timespan, SemVer, …) are not
                          modelled: `C16_new` quantifies over an arbitrary constructor function, and the general `new` op of
                          the correspondence run is implementation-only (a test with the direct predicate, not a proof);
@@ -273,58 +281,112 @@ def RecvTy.type? : RecvTy → Option Ty
   | .init t => some t
   | .initDefault => none
 
-/-- what `new` returns is an instance of the receiver (of the contained type for `Init[T]`) -/
-theorem C16_newm (r : RecvTy) (args : List Val) (v : Val) (h : newModel r args = some (.value v)) :
-    ∃ t, r.type? = some t ∧ inst t v = true := by
+theorem newModel_some (r : RecvTy) (args : List Val) (o : NewOutcome Val) (h : newModel r args = some o) :
+    ∃ recv, recvOf r = some recv ∧ newInstance inst recv args = o := by
   unfold newModel at h
   cases hr : recvOf r with
   | none => simp [hr] at h
   | some recv =>
-    simp [hr] at h
-    obtain ⟨t, ht, hi⟩ := C16_new inst recv args v h
-    refine ⟨t, ?_, hi⟩
-    cases r with
-    | plain t0 => simp only [recvOf] at hr; split at hr <;> simp at hr <;> subst hr <;> simpa [Recv.type?, RecvTy.type?] using ht
-    | init t0 => simp only [recvOf] at hr; split at hr <;> simp at hr <;> subst hr <;> simp [Recv.type?, RecvTy.type?] at ht ⊢ <;> exact ht
-    | initDefault => simp [recvOf] at hr; subst hr; simp [Recv.type?] at ht
+    refine ⟨recv, rfl, ?_⟩
+    simp only [hr] at h
+    split at h
+    · cases h
+    · exact Option.some.inj h
+
+/-- what `new` returns is an instance of the receiver (of the contained type for `Init[T]`) — for the modelled
+    constructors of Integer, Boolean, Array/Tuple and Hash/Struct: the assertion is made on the constructor's result VALUE -/
+theorem C16_newm (r : RecvTy) (args : List Val) (v : Val) (h : newModel r args = some (.value v)) :
+    ∃ t, r.type? = some t ∧ inst t v = true := by
+  obtain ⟨recv, hr, hn⟩ := newModel_some r args _ h
+  obtain ⟨t, ht, hi⟩ := C16_new inst recv args v hn
+  refine ⟨t, ?_, hi⟩
+  cases r with
+  | plain t0 => simp only [recvOf] at hr; split at hr <;> simp at hr <;> subst hr <;> simpa [Recv.type?, RecvTy.type?] using ht
+  | init t0 => simp only [recvOf] at hr; split at hr <;> simp at hr <;> subst hr <;> simp [Recv.type?, RecvTy.type?] at ht ⊢ <;> exact ht
+  | initDefault => simp [recvOf] at hr; subst hr; simp [Recv.type?] at ht
+
+theorem newInstance_no_fault {T V : Type} (inst : T → V → Bool) (recv : Recv T V) (args : List V)
+    (hf : ∀ t f, (recv = .ctor t f ∨ recv = .init t f) → f args ≠ .fault) : newInstance inst recv args ≠ .fault := by
+  cases recv with
+  | noCtor t => simp [newInstance]
+  | initNoCtor => simp [newInstance]
+  | initDefault => simp [newInstance]
+  | ctor t f =>
+    have := hf t f (Or.inl rfl)
+    simp only [newInstance]
+    cases h : f args with
+    | fault => exact absurd h this
+    | reported _ => simp
+    | value v => simp only [assertInstance]; split <;> simp
+  | init t f =>
+    have := hf t f (Or.inr rfl)
+    simp only [newInstance]
+    cases h : f args with
+    | fault => exact absurd h this
+    | reported _ => simp
+    | value v => simp only [assertInstance]; split <;> simp
+
+theorem ctorOf_no_fault (t : Ty) (c : Ctor) (h : ctorOf t = .some c) : ∀ a, ctorCall c a ≠ .fault := by
+  cases t <;> simp [ctorOf] at h <;> subst h <;>
+    first | exact integer_no_fault | exact boolean_no_fault | exact array_no_fault | exact hash_no_fault
 
 /-- no type assertion or index in the bodies of the modelled constructors can fail: a body runs only with arguments its
     declaration accepts -/
 theorem C16_ctor_no_fault (r : RecvTy) (args : List Val) : newModel r args ≠ some .fault := by
-  have hc : ∀ c, ctorOf (match r with | .plain t => t | .init t => t | .initDefault => .never) = .some c →
-      ∀ a, ctorCall c a ≠ .fault := by
-    intro c hc
-    cases r with
-    | plain t => cases t <;> simp [ctorOf] at hc <;> subst hc <;> first | exact integer_no_fault | exact boolean_no_fault | exact array_no_fault
-    | init t => cases t <;> simp [ctorOf] at hc <;> subst hc <;> first | exact integer_no_fault | exact boolean_no_fault | exact array_no_fault
-    | initDefault => simp [ctorOf] at hc
-  unfold newModel
+  intro h
+  obtain ⟨recv, hr, hn⟩ := newModel_some r args _ h
+  refine newInstance_no_fault inst recv args ?_ hn
+  intro t f hrf
   cases r with
-  | plain t =>
-    simp only [recvOf]
-    cases hct : ctorOf t with
-    | none => simp [newInstance]
-    | unmodelled => simp
+  | plain t0 =>
+    simp only [recvOf] at hr
+    cases hct : ctorOf t0 with
+    | none => simp [hct] at hr; subst hr; simp at hrf
+    | unmodelled => simp [hct] at hr
     | some c =>
-      have := hc c hct args
-      simp only [Option.map_some, newInstance]
-      cases hf : ctorCall c args with
-      | fault => exact absurd hf this
-      | reported _ => simp
-      | value v => simp [assertInstance]; split <;> simp
-  | init t =>
-    simp only [recvOf]
-    cases hct : ctorOf t with
-    | none => simp [newInstance]
-    | unmodelled => simp
+      simp [hct] at hr; subst hr
+      rcases hrf with hrf | hrf <;> simp at hrf
+      obtain ⟨_, rfl⟩ := hrf
+      exact ctorOf_no_fault t0 c hct args
+  | init t0 =>
+    simp only [recvOf] at hr
+    cases hct : ctorOf t0 with
+    | none => simp [hct] at hr; subst hr; simp at hrf
+    | unmodelled => simp [hct] at hr
     | some c =>
-      have := initCall_no_fault c (hc c hct) args
-      simp only [Option.map_some, newInstance]
-      cases hf : initCall c args with
-      | fault => exact absurd hf this
-      | reported _ => simp
-      | value v => simp [assertInstance]; split <;> simp
-  | initDefault => simp [recvOf, newInstance]
+      simp [hct] at hr; subst hr
+      rcases hrf with hrf | hrf <;> simp at hrf
+      obtain ⟨_, rfl⟩ := hrf
+      exact initCall_no_fault c (ctorOf_no_fault t0 c hct) args
+  | initDefault => simp [recvOf] at hr; subst hr; simp at hrf
+
+/-- `Struct[{…}].new` (distinct member names), whichever dispatch of the Hash constructor produced the hash and whatever
+    its keys are: what comes out has only declared keys, and every member is present with a value of its type or is
+    optional and absent.  The assertion looks at the VALUE: a hash with an empty, a non-string or an undeclared key is
+    never returned, although its inferred type `Hash[K,V,n,n]` is one the Struct type is assignable from -/
+theorem C16_new_struct (ms : List (String × Bool × Ty)) (hnd : (ms.map (·.1)).Nodup) (init : Bool) (args : List Val) (v : Val)
+    (h : newModel (if init then .init (.struct ms) else .plain (.struct ms)) args = some (.value v)) :
+    ∃ es, v = .hash es ∧ (∀ e ∈ es, ∃ m ∈ ms, e.1 = .str m.1) ∧
+      ∀ m ∈ ms, (∃ x, lookupKey m.1 es = some x ∧ inst m.2.2 x = true) ∨ (m.2.1 = true ∧ lookupKey m.1 es = none) := by
+  obtain ⟨t, ht, hi⟩ := C16_newm _ args v h
+  cases init <;> simp [RecvTy.type?] at ht <;> subst ht <;> exact inst_struct ms hnd v hi
+
+-- non-vacuity and the excluded values: a declared hash is returned; '' / non-string / undeclared keys and a missing
+-- member are reported, through the hash, the key-value-array and the flat-array dispatch
+def structA : Ty := .struct [("a", false, .int none none)]
+def structAB : Ty := .struct [("a", false, .int none none), ("b", true, .bool)]
+example : newModel (.plain structA) [.hash [(.str "a", .int 1)]] = some (.value (.hash [(.str "a", .int 1)])) := by rfl
+example : newModel (.plain structAB) [.arr [.arr [.str "b", .bool true], .arr [.str "a", .int 1]]] =
+    some (.value (.hash [(.str "b", .bool true), (.str "a", .int 1)])) := by rfl
+example : newModel (.plain structA) [.hash [(.str "", .int 1)]] = some (.reported "TYPE_MISMATCH") := by rfl
+example : newModel (.plain structA) [.arr [.str "", .int 1]] = some (.reported "TYPE_MISMATCH") := by rfl
+example : newModel (.plain (.struct [("a", true, .int none none)])) [.hash [(.int 1, .bool true)]] =
+    some (.reported "TYPE_MISMATCH") := by rfl
+example : newModel (.plain structAB) [.hash [(.str "a", .int 1), (.str "", .int 2)]] = some (.reported "TYPE_MISMATCH") := by rfl
+example : newModel (.plain structAB) [.hash [(.str "a", .int 1), (.str "a", .int 2)]] = some (.reported "TYPE_MISMATCH") := by rfl
+example : newModel (.init structA) [.hash [(.str "z", .int 1)]] = some (.reported "TYPE_MISMATCH") := by rfl
+example : newModel (.plain (.hash (.int none none) .any 1 (some 1))) [.arr [.int 1, .undef]] =
+    some (.value (.hash [(.int 1, .undef)])) := by rfl
 
 example : newModel (.plain (.int none none)) [.int 3] = some (.value (.int 3)) := by rfl
 example : newModel (.plain (.int none none)) [.int (-3), .default, .bool true] = some (.value (.int 3)) := by rfl
